@@ -67,6 +67,13 @@ def cache_cfgs():
     return c
 
 HARNESSES = [
+    dict(name="read_protocol", src="read_protocol.c",
+         cut_statics={"lib/ext2fs/unix_io.c": ["find_cached_block", "raw_read_blk", "reuse_cache"]},
+         funcs=["unix_read_blk64"],
+         configs=[{"CNT": c, "_unwindset": ["unix_read_blk64.%d:%d" % (i, c + 1) for i in range(3)]} for c in (2, 3, 4)],
+         unwind=10, backends=["default"],
+         bound="real cache geometry; request of 2, 3 and 4 blocks (every cached-path count), any start block, every "
+               "cached/uncached pattern (symbolic mask over 8 blocks); callees cut to specification stubs"),
     dict(name="rw_partition", src="rw_partition.c",
          cut_statics={"lib/ext2fs/rw_bitmaps.c": ["read_bitmaps_range_start"]},
          funcs=["ext2fs_rw_bitmaps", "read_bitmaps_range_prepare", "read_bitmaps_range_end"],
